@@ -75,28 +75,28 @@ theorem low_openAt (d : Nat) (lm : LM) (e : Bnd) (h : d ≤ lm.length) : Low d l
   let h' := (ext_openAt lm d e h).1
   ⟨h'.len, h'.low⟩
 
-/-- scan of a term in operand position -/
+/-- scan of a term in operand position (the resulting level map does not depend on what follows) -/
 def ScanC (x : T) : Prop :=
-  ∀ (cs : Str) (i : Nat) (st : St), st.modes.length ≤ st.lm.length →
-    (viol x i = none → ∃ lm', scan '(' ')' (rT x ++ cs) i st = scan '(' ')' cs (i + (rT x).length) { st with lm := lm' }
+  ∀ (i : Nat) (st : St), st.modes.length ≤ st.lm.length →
+    (viol x i = none → ∃ lm', (∀ cs, scan '(' ')' (rT x ++ cs) i st = scan '(' ')' cs (i + (rT x).length) { st with lm := lm' })
         ∧ Low st.modes.length st.lm lm')
-    ∧ (∀ L j, viol x i = some (L, j) → scan '(' ')' (rT x ++ cs) i st = .rewrite L j)
+    ∧ (∀ L j, viol x i = some (L, j) → ∀ cs, scan '(' ')' (rT x ++ cs) i st = .rewrite L j)
 
 /-- scan of an unparenthesised group with operator `o` that begins right after the opening
     parenthesis of the boundary `b` -/
 def ScanO (o : Op3) (x : T) : Prop :=
-  ∀ (cs : Str) (i : Nat) (st : St) (ms : List Mode) (X : List Bnd) (b : Bnd),
+  ∀ (i : Nat) (st : St) (ms : List Mode) (X : List Bnd) (b : Bnd),
     st.modes = .left :: ms → st.lm[ms.length]? = some (X ++ [b]) → b.left = i →
-    (viol x i = none → ∃ lm' p, scan '(' ')' (rT x ++ cs) i st
-          = scan '(' ')' cs (i + (rT x).length) { modes := .right :: ms, lm := lm', gpar := st.gpar }
+    (viol x i = none → ∃ lm' p, (∀ cs, scan '(' ')' (rT x ++ cs) i st
+          = scan '(' ')' cs (i + (rT x).length) { modes := .right :: ms, lm := lm', gpar := st.gpar })
         ∧ lm'[ms.length]? = some (X ++ [{ b with op := p, opVal := o.str }])
         ∧ p + o.str.length + 3 ≤ i + (rT x).length
         ∧ Low ms.length st.lm lm')
-    ∧ (∀ L j, viol x i = some (L, j) → scan '(' ')' (rT x ++ cs) i st = .rewrite L j)
+    ∧ (∀ L j, viol x i = some (L, j) → ∀ cs, scan '(' ')' (rT x ++ cs) i st = .rewrite L j)
 
 theorem scanC_leaf (t : Str) (h : Plain t) : ScanC (.leaf t) := by
-  intro cs i st _
-  refine ⟨fun _ => ⟨st.lm, ?_, Low.refl _ _⟩, fun L j hv => by simp [viol] at hv⟩
+  intro i st _
+  refine ⟨fun _ => ⟨st.lm, fun cs => ?_, Low.refl _ _⟩, fun L j hv => by simp [viol] at hv⟩
   rw [rT, scan_plain _ _ _ _ h]
 
 theorem length_of_getElem?_some {lm : LM} {k : Nat} {v : List Bnd} (h : lm[k]? = some v) : k + 1 ≤ lm.length := by
@@ -110,62 +110,63 @@ theorem plain_blank : Plain [' '] := by intro c hc; simp at hc; subst hc; decide
 theorem scanO_body (o : Op3) (l r : T)
     (Hl : (l.isOpen = true → ScanO o l) ∧ (l.isOpen = false → ScanC l)) (Hr : ScanC r) :
     ScanO o (.bin o false l r) := by
-  intro cs i st ms X b hm hlm hb
+  intro i st ms X b hm hlm hb
   have hlen : ms.length + 1 ≤ st.lm.length := length_of_getElem?_some hlm
-  have hr : rT (.bin o false l r) ++ cs
-      = rT l ++ ([' '] ++ ('[' :: (o.str ++ ']' :: ([' '] ++ (rT r ++ cs))))) := by simp [rT, Op3.br]
+  have hr : ∀ cs, rT (.bin o false l r) ++ cs
+      = rT l ++ ([' '] ++ ('[' :: (o.str ++ ']' :: ([' '] ++ (rT r ++ cs))))) := by intro cs; simp [rT, Op3.br]
   have hlenx : (rT (.bin o false l r)).length = (rT l).length + (rT r).length + o.str.length + 4 := by
     simp [rT, Op3.br]; omega
   cases hopen : l.isOpen with
   | true =>
-    obtain ⟨hlN, hlS⟩ := Hl.1 hopen ([' '] ++ ('[' :: (o.str ++ ']' :: ([' '] ++ (rT r ++ cs))))) i st ms X b hm hlm hb
+    obtain ⟨hlN, hlS⟩ := Hl.1 hopen i st ms X b hm hlm hb
     cases hv : viol l i with
     | some v =>
-      refine ⟨fun h => by simp [viol, hv] at h, fun L j h => ?_⟩
+      refine ⟨fun h => by simp [viol, hv] at h, fun L j h cs => ?_⟩
       have hvv : v = (L, j) := by simpa [viol, hv] using h
-      rw [hr]; exact hlS L j (by rw [hv, hvv])
+      rw [hr]; exact hlS L j (by rw [hv, hvv]) _
     | none =>
       obtain ⟨lm1, p, hs1, hat1, hp1, hlow1⟩ := hlN hv
-      refine ⟨fun h => by simp [viol, hv, hopen] at h, fun L j h => ?_⟩
+      refine ⟨fun h => by simp [viol, hv, hopen] at h, fun L j h cs => ?_⟩
       have hLj : i = L ∧ i + (rT l).length + 1 = j := by simpa [viol, hv, hopen] using h
       rw [hr, hs1, scan_plain [' '] _ _ _ plain_blank,
         scan_op_repeat o _ _ _ ms X { b with op := p, opVal := o.str } rfl hat1 (by simp [hb]; omega) rfl]
       simp [hb, hLj.1, ← hLj.2]
   | false =>
-    obtain ⟨hlN, hlS⟩ := Hl.2 hopen ([' '] ++ ('[' :: (o.str ++ ']' :: ([' '] ++ (rT r ++ cs))))) i st (by rw [hm]; simpa using hlen)
+    obtain ⟨hlN, hlS⟩ := Hl.2 hopen i st (by rw [hm]; simpa using hlen)
     cases hv : viol l i with
     | some v =>
-      refine ⟨fun h => by simp [viol, hv] at h, fun L j h => ?_⟩
+      refine ⟨fun h => by simp [viol, hv] at h, fun L j h cs => ?_⟩
       have hvv : v = (L, j) := by simpa [viol, hv] using h
-      rw [hr]; exact hlS L j (by rw [hv, hvv])
+      rw [hr]; exact hlS L j (by rw [hv, hvv]) _
     | none =>
       obtain ⟨lm1, hs1, hlow1⟩ := hlN hv
       have hml : st.modes.length = ms.length + 1 := by rw [hm]; simp
       have hat1 : lm1[ms.length]? = some (X ++ [b]) := by
         rw [hlow1.low _ (by omega)]; exact hlm
-      have hsp : o.str ++ ']' :: ([' '] ++ (rT r ++ cs)) = (o.str ++ [']', ' ']) ++ (rT r ++ cs) := by simp
+      have hsp : ∀ cs, o.str ++ ']' :: ([' '] ++ (rT r ++ cs)) = (o.str ++ [']', ' ']) ++ (rT r ++ cs) := by intro cs; simp
       have hst1 : ({ st with lm := lm1 } : St).modes = .left :: ms := hm
       -- the state after the first operator
-      obtain ⟨hrN, hrS⟩ := Hr cs (i + (rT l).length + [' '].length + 1 + (o.str ++ [']', ' ']).length)
+      obtain ⟨hrN, hrS⟩ := Hr (i + (rT l).length + [' '].length + 1 + (o.str ++ [']', ' ']).length)
         { modes := .right :: ms,
           lm := modAt lm1 ms.length (modLast fun b => { b with op := i + (rT l).length + [' '].length, opVal := o.str }),
           gpar := st.gpar }
         (by simp [length_modAt]; have := hlow1.len; omega)
-      have hscan : scan '(' ')' (rT (.bin o false l r) ++ cs) i st
+      have hscan : ∀ cs, scan '(' ')' (rT (.bin o false l r) ++ cs) i st
           = scan '(' ')' (rT r ++ cs) (i + (rT l).length + [' '].length + 1 + (o.str ++ [']', ' ']).length)
               { modes := .right :: ms,
                 lm := modAt lm1 ms.length (modLast fun b => { b with op := i + (rT l).length + [' '].length, opVal := o.str }),
                 gpar := st.gpar } := by
+        intro cs
         rw [hr, hs1, scan_plain [' '] _ _ _ plain_blank,
           scan_op o _ _ _ ms X b hst1 hat1 (by simp [hb]; omega), hsp, scan_plain _ _ _ _ (plain_opstr o)]
       have hpos : i + (rT l).length + [' '].length + 1 + (o.str ++ [']', ' ']).length = i + (rT l).length + o.str.length + 4 := by
         simp; omega
       have hviolx : viol (.bin o false l r) i = viol r (i + (rT l).length + o.str.length + 4) := by
         simp [viol, hv, hopen]
-      refine ⟨fun h => ?_, fun L j h => ?_⟩
+      refine ⟨fun h => ?_, fun L j h cs => ?_⟩
       · rw [hviolx, ← hpos] at h
         obtain ⟨lm3, hs3, hlow3⟩ := hrN h
-        refine ⟨lm3, i + (rT l).length + [' '].length, ?_, ?_, ?_, ?_⟩
+        refine ⟨lm3, i + (rT l).length + [' '].length, fun cs => ?_, ?_, ?_, ?_⟩
         · rw [hscan, hs3]
           congr 1
           rw [hlenx]; simp; omega
@@ -176,33 +177,33 @@ theorem scanO_body (o : Op3) (l r : T)
         · rw [hlenx]; simp; omega
         · exact (hlow1.mono (by omega)).trans ((low_modAt ms.length ms.length lm1 _ (Nat.le_refl _)).trans (hlow3.mono (by simp)))
       · rw [hviolx, ← hpos] at h
-        rw [hscan]; exact hrS L j h
+        rw [hscan]; exact hrS L j h cs
 
 /-- a parenthesised group, given the scan of what stands between its parentheses -/
 theorem scanC_bin (o : Op3) (l r : T) (HB : ScanO o (.bin o false l r)) : ScanC (.bin o true l r) := by
-  intro cs i st hinv
-  have hr : rT (.bin o true l r) ++ cs = '(' :: (rT (.bin o false l r) ++ (')' :: cs)) := by simp [rT]
+  intro i st hinv
+  have hr : ∀ cs, rT (.bin o true l r) ++ cs = '(' :: (rT (.bin o false l r) ++ (')' :: cs)) := by intro cs; simp [rT]
   have hlenx : (rT (.bin o true l r)).length = (rT (.bin o false l r)).length + 2 := by simp [rT]; omega
   have hviol : viol (.bin o true l r) i = viol (.bin o false l r) (i+1) := by simp [viol]
   obtain ⟨n, hn⟩ : ∃ n, n = (rT (.bin o false l r)).length := ⟨_, rfl⟩
   rw [← hn] at hlenx
   obtain ⟨hE1, hlen1⟩ := ext_openAt st.lm st.modes.length { left := i + 1 } hinv
   have hat1 := some_of_getD_append _ _ _ _ hE1.at_
-  obtain ⟨hN, hS⟩ := HB (')' :: cs) (i+1)
+  obtain ⟨hN, hS⟩ := HB (i+1)
     { modes := .left :: st.modes, lm := openAt st.lm st.modes.length { left := i + 1 }, gpar := st.gpar + 1 }
     st.modes _ { left := i + 1 } rfl hat1 rfl
-  refine ⟨fun h => ?_, fun L j h => ?_⟩
+  refine ⟨fun h => ?_, fun L j h cs => ?_⟩
   · rw [hviol] at h
     obtain ⟨lm2, p, hs2, hat2, hp2, hlow2⟩ := hN h
-    rw [← hn] at hs2 hp2
-    refine ⟨modAt lm2 st.modes.length (modLast fun b => { b with right := i + 1 + n, complete := b.opVal ≠ [] }), ?_, ?_⟩
-    · rw [hr, scan_open, hs2, scan_close _ _ _ .right st.modes _ _ rfl hat2 (by simp; omega)]
+    rw [← hn] at hp2
+    refine ⟨modAt lm2 st.modes.length (modLast fun b => { b with right := i + 1 + n, complete := b.opVal ≠ [] }), fun cs => ?_, ?_⟩
+    · rw [hr, scan_open, hs2, ← hn, scan_close _ _ _ .right st.modes _ _ rfl hat2 (by simp; omega)]
       congr 1
       · rw [hlenx]; omega
       · simp
     · exact (low_openAt _ _ _ hinv).trans (hlow2.trans (low_modAt _ _ _ _ (Nat.le_refl _)))
   · rw [hviol] at h
-    rw [hr, scan_open]; exact hS L j h
+    rw [hr, scan_open]; exact hS L j h _
 
 /-- well-formed terms outside a group are parenthesised -/
 theorem wf_none_closed (x : T) (h : wf x none) : x.isOpen = false := by
@@ -457,7 +458,7 @@ theorem detect_step (x : T) (hw : wf x none) (L j : Nat) (hv : viol x 0 = some (
     have := parCount_rT x none hw [] 0
     simpa [Validate.parCount] using this
   have hsc : scan '(' ')' (rT x) 0 {} = .rewrite L j := by
-    have := (((scan_wf x none hw).1 hc) [] 0 {} (by simp)).2 L j hv
+    have := (((scan_wf x none hw).1 hc) 0 {} (by simp)).2 L j hv []
     simpa using this
   obtain ⟨x', hx', he⟩ := rewrite_is_step x [] [] L j (by simpa using hv)
   refine ⟨x', hx', ?_⟩
@@ -507,7 +508,7 @@ theorem detect_step_ctx (pre post : Str) (st1 : St) (hp : ScanPre pre st1) (hb :
   have hpc := hb (rT x) (parCount_rT x none hw)
   have hsc : scan '(' ')' (pre ++ rT x ++ post) 0 {} = .rewrite L j := by
     rw [List.append_assoc, hp.run]
-    exact (((scan_wf x none hw).1 hc) post pre.length st1 hp.inv).2 L j hv
+    exact (((scan_wf x none hw).1 hc) pre.length st1 hp.inv).2 L j hv post
   obtain ⟨x', hx', he⟩ := rewrite_is_step x pre post L j hv
   refine ⟨x', hx', ?_⟩
   rw [detect]
